@@ -76,6 +76,7 @@ func C13(c *Ctx) error {
 		spec{splitPQ(gen.GenMultiServiceFile(r.Fork("c13-multi2"), n+3, gen.RuntimeOpts{Headers: true, ManyMethods: true})), "multi_service_loadable"},
 		spec{gen.InteropCorpus(0), "ts_interop_corpus"},
 		spec{gen.GenNestedAnnot(n+4, true), "nested_annotations"},
+		spec{gen.GenFeaturePairs(n + 5), "feature_pairs"},
 		spec{postQueryOnly(n + 2), "post_query_only"})
 	// whatever the plugins accept must build: the rule-breaking fragments of C12 (refused today) at
 	// every placement; a validator that stops refusing one of them must not let uncompilable code out
